@@ -1,7 +1,7 @@
 (* Entry points of the extracted model: [run cmd arg]. *)
 From Coq Require Import NArith List Bool.
 From PV Require Import Base.Sx Model.Forest Model.Table Model.LRDriver Model.Scan Model.Parser
-  Validators.TableStruct Validators.ForestSound Validators.TableComplete Model.Errors Extract.Codec.
+  Validators.TableStruct Validators.ForestSound Validators.TableComplete Validators.TableProgress Model.Errors Extract.Codec.
 From PV Require Import Extract.RunC19.
 From PV Require Import Extract.RunC12.
 From PV Require Import Extract.RunC09.
@@ -103,6 +103,10 @@ Definition run_forest_labelled (s : sx) : sx :=
   ofB (forest_ok_labelled_full g tokok (skip_ws ws inp) (sxB (sx_nth s 9)) (sxN (sx_nth s 6))
                                (sxN (sx_nth s 7)) (in_len inp) (sxB (sx_nth s 8)) F labels).
 
+(* 12: table_progress (grammar table stop) *)
+Definition run_table_progress (s : sx) : sx :=
+  ofB (table_progress (grammar_of_sx (sx_nth s 0)) (table_of_sx (sx_nth s 1)) (sxN (sx_nth s 2))).
+
 Definition run (cmd : N) (arg : sx) : sx :=
   match cmd with
   | 1 => run_forest_stats arg
@@ -116,6 +120,7 @@ Definition run (cmd : N) (arg : sx) : sx :=
   | 9 => run_linecol arg
   | 10 => run_det_table arg
   | 11 => run_forest_labelled arg
+  | 12 => run_table_progress arg
   | 190 => run_c19_unescape arg
   | 191 => run_c19_build arg
   | 192 => run_c19_match arg
